@@ -313,7 +313,7 @@ def run_offline(prop, tier, seed, sp, workdir, build, cargo_env, log):
         except subprocess.TimeoutExpired:
             p.kill()
             res["inconclusive"].append("offline: dump shard watchdog fired")
-    pr = subprocess.run([sys.executable, os.path.join(ROOT, "offline", "check_log.py"), workdir], capture_output=True, text=True)
+    pr = subprocess.run([sys.executable, os.path.join(ROOT, "offline", "check_log.py"), workdir, prop], capture_output=True, text=True)
     try:
         summary = json.loads(pr.stdout.strip().splitlines()[-1])
     except Exception:  # noqa: BLE001
